@@ -75,7 +75,7 @@ func (s *segmentMetadata) getIndex(vecIdx VectorIndex, txtIdx TextIndex, metaIdx
 
 	// Create new hybrid index
 	verifPoint("segment.load.begin", s.id, vecIdx, txtIdx, metaIdx)
-	idx := NewHybridSearchIndex(vecIdx, txtIdx, metaIdx)
+	idx := newHybridIndexLike(vecIdx, txtIdx, metaIdx)
 
 	// Open all segment files
 	hybridFile, err := os.Open(s.hybridPath)
